@@ -1,4 +1,5 @@
 import BoltonsVerif.C16.Proofs
+import BoltonsVerif.C16.Regex
 /-
 C16 — property theorems (statements, short derivations from Proofs.lean, non-vacuity examples).
 
@@ -44,6 +45,60 @@ theorem source_regexes_agree :
                           "digit+".toList] ∧
     Gen.underlineReShape = ["^".toList, "set*: ^~".toList, "$".toList] := by decide
 
+/-! ## the source's patterns, run by a generic backtracking matcher, are the scanners of the model
+
+`Re.reMatch` (Regex.lean) is a matcher for the fragment of `re` syntax the three patterns use (`^`, `$`, literals,
+greedy `X+` / `X*` over `.`, `\d`, `[...]`; longest run first, characters given back one by one), independent of
+these particular patterns.  The token lists are regenerated from the source on every run. -/
+
+/-- the regenerated token lists parse to the three patterns the theorems below speak about -/
+theorem source_patterns_parse :
+    Re.parseToks Gen.frameReShape = some Re.frameToks ∧ Re.parseToks Gen.seFrameReShape = some Re.seToks ∧
+    Re.parseToks Gen.underlineReShape = some Re.ulToks := by decide +kernel
+
+/-- `_frame_re.match(line).groupdict()`, computed by the generic matcher on the source's pattern, is what the
+    hand scanner `matchFrame` computes (rightmost `", line N, in f"` split, non-empty path), for every line -/
+theorem frame_scanner_is_source_regex (ft : List Re.Tok) (h : Re.parseToks Gen.frameReShape = some ft)
+    (l : Str) (hn : Re.noNL l = true) : matchFrame l = (Re.reMatch ft l).bind Re.frameOfGroups := by
+  have := source_patterns_parse.1
+  rw [h] at this
+  rw [Option.some.inj this]
+  exact Re.matchFrame_eq_re l hn
+
+/-- the same for the SyntaxError form `_se_frame_re` -/
+theorem se_scanner_is_source_regex (st : List Re.Tok) (h : Re.parseToks Gen.seFrameReShape = some st)
+    (l : Str) (hn : Re.noNL l = true) : matchSE l = (Re.reMatch st l).bind Re.seFrameOfGroups := by
+  have := source_patterns_parse.2.1
+  rw [h] at this
+  rw [Option.some.inj this]
+  exact Re.matchSE_eq_re l hn
+
+/-- `_underline_re.match(line)` succeeds exactly on the lines `isUnderline` accepts -/
+theorem underline_scanner_is_source_regex (ut : List Re.Tok) (h : Re.parseToks Gen.underlineReShape = some ut)
+    (l : Str) (hn : Re.noNL l = true) : isUnderline l = (Re.reMatch ut l).isSome := by
+  have := source_patterns_parse.2.2
+  rw [h] at this
+  rw [Option.some.inj this]
+  exact Re.isUnderline_eq_re l hn
+
+/-- ParsedException.from_string with its three `.match` calls evaluated by the generic matcher on the source's
+    patterns is the model `fromStringF` the clause-1 theorems are about - for every text (the lines it matches come
+    out of str.splitlines and strip(), so they contain no `\n`) -/
+theorem from_string_is_source_regexes (ft st ut : List Re.Tok)
+    (h1 : Re.parseToks Gen.frameReShape = some ft) (h2 : Re.parseToks Gen.seFrameReShape = some st)
+    (h3 : Re.parseToks Gen.underlineReShape = some ut) (t : Str) :
+    Re.fromStringRe ft st ut t = fromStringF t := by
+  obtain ⟨p1, p2, p3⟩ := source_patterns_parse
+  rw [h1] at p1; rw [h2] at p2; rw [h3] at p3
+  rw [Option.some.inj p1, Option.some.inj p2, Option.some.inj p3]
+  exact Re.fromStringRe_eq t
+
+example : Re.reMatch Re.frameToks "File \"/x \", line 5, in g/é.py\", line 12, in <lambda>".toList
+    = some ["/x \", line 5, in g/é.py".toList, "12".toList, "<lambda>".toList] := by decide +kernel
+example : Re.reMatch Re.frameToks "File \"a\", line 12, in ".toList = none := by decide +kernel
+example : Re.reMatch Re.seToks "File \"a\", line 12x".toList = some ["a".toList, "12".toList] := by decide +kernel
+example : Re.reMatch Re.ulToks "  ~~^^ ".toList = some [] ∧ Re.reMatch Re.ulToks " ~x".toList = none := by decide +kernel
+
 /-! ## clause 1 -/
 
 /-- from_string recovers every field from a standard-format text, marker lines or not -/
@@ -51,6 +106,16 @@ theorem parse_render_markers (fas : List (Frame × Option Str)) (etype msg : Str
     (h : WFtextA fas etype msg = true) :
     fromString (toStringA fas etype msg) = .ok ⟨fas.map (·.1), etype, msg⟩ := by
   unfold fromString; rw [fromStringF_rendered fas etype msg h]; rfl
+
+/-- the same statement about from_string run on the source's own patterns (generic matcher), not on the hand
+    scanners: every field of a standard-format text is recovered -/
+theorem parse_render_markers_source_regexes (ft st ut : List Re.Tok)
+    (h1 : Re.parseToks Gen.frameReShape = some ft) (h2 : Re.parseToks Gen.seFrameReShape = some st)
+    (h3 : Re.parseToks Gen.underlineReShape = some ut)
+    (fas : List (Frame × Option Str)) (etype msg : Str) (h : WFtextA fas etype msg = true) :
+    (Re.fromStringRe ft st ut (toStringA fas etype msg)).map (·.2) = .ok ⟨fas.map (·.1), etype, msg⟩ := by
+  rw [from_string_is_source_regexes ft st ut h1 h2 h3]
+  exact parse_render_markers fas etype msg h
 
 /-- ... also when the text carries the interpreter's final newline -/
 theorem parse_render_final_newline (fas : List (Frame × Option Str)) (etype msg : Str)
